@@ -63,6 +63,12 @@ RULE_KINDS_M = {
                    ['macro m1($x: expr) { z($x), m2!($x) }', 'macro m2($x: expr) { z($x), m3!($x) }', 'macro m3($x: expr) { z($x), a1($x) }'], ['q(x) <-- m1!(x);'], 'recursively defined Ascent macro'),
     'macro_rec_in_disj': (['macro mm($x: expr) { (z($x) | mm!($x)) }'], ['q(x) <-- mm!(x);'], ['macro mm($x: expr) { (z($x) | a1($x)) }'], ['q(x) <-- mm!(x);'], 'recursively defined Ascent macro'),
     'attr_on_relation': ([], [], [], [], None),
+    'rebind_agg_boundarg': ([], ['q(x) <-- z(x), agg _m = min(x) in p(_, x);'], [], ['q(x) <-- z(x), agg _m = min(w) in p(_, w);'], 'shadows another variable'),
+    'rebind_agg_boundarg_later': ([], ['q(y) <-- e(x, y), agg _c = count() in p(_, _), agg _m = max(x) in p(x, _);'], [], ['q(y) <-- e(x, y), agg _c = count() in p(_, _), agg _m = max(w) in p(w, _);'], 'shadows another variable'),
+    # a macro that invokes itself twice per expansion (2^depth expansions if the recursion error is not looked at first)
+    'macro_double_rec_head': (['macro hh($x: expr) { hh!($x), hh!($x) }'], ['hh!(x) <-- e(x, _);'], ['macro hh($x: expr) { q($x), z($x) }'], ['hh!(x) <-- e(x, _);'], 'recursively defined Ascent macro'),
+    'macro_double_rec_disj': (['macro mm($x: expr) { (mm!($x) | mm!($x)) }'], ['q(x) <-- e(x, _), mm!(x);'], ['macro mm($x: expr) { (z($x) | a1($x)) }'], ['q(x) <-- e(x, _), mm!(x);'], 'recursively defined Ascent macro'),
+    'macro_double_rec_body': (['macro mm($x: expr) { mm!($x), mm!($x) }'], ['q(x) <-- e(x, _), mm!(x);'], ['macro mm($x: expr) { z($x), a1($x) }'], ['q(x) <-- e(x, _), mm!(x);'], 'recursively defined Ascent macro'),
 }
 # cycles: every order of the rules of the cycle (the stratification check must not depend on rule order)
 CYC2 = (['a1(x) <-- e(x, _), !a2(x);', 'a2(x) <-- a1(x);'], ['a1(x) <-- e(x, _), !z(x);', 'a2(x) <-- a1(x);'])
@@ -118,6 +124,19 @@ def main():
         add('attr_on_lattice', 'x', m,
             program(m, [], place(BASE_DECLS, ['#[frobnicate] lattice l3(i32, i32);'], 2), [], BASE_RULES),
             program(m, [], place(BASE_DECLS, ['lattice l3(i32, i32);'], 2), [], BASE_RULES), 'frobnicate')
+    for m in macros_rule:
+        add('attr_dangling', 'x', m,
+            program(m, [], BASE_DECLS, [], BASE_RULES + ['#[frobnicate]']),
+            program(m, [], BASE_DECLS, [], BASE_RULES), 'unexpected attribute')
+    for m in ('ascent', 'ascent_par'):
+        add('sig_name_mismatch', 'x', m,
+            '   ascent::%s! {\n      pub struct WA; impl WB;\n%s%s   }\n' % (m, ''.join('      %s\n' % d for d in BASE_DECLS), ''.join('      %s\n' % r for r in BASE_RULES)),
+            '   ascent::%s! {\n      pub struct WA; impl WA;\n%s%s   }\n' % (m, ''.join('      %s\n' % d for d in BASE_DECLS), ''.join('      %s\n' % r for r in BASE_RULES)),
+            'identifiers of struct and impl must match')
+        add('sig_generics_mismatch', 'x', m,
+            '   ascent::%s! {\n      pub struct WG<T: Clone + Eq + std::hash::Hash + Sync + Send>; impl<U: Clone + Eq + std::hash::Hash + Sync + Send> WG<U>;\n      relation g(T);\n   }\n' % m,
+            '   ascent::%s! {\n      pub struct WG<T: Clone + Eq + std::hash::Hash + Sync + Send>; impl<T: Clone + Eq + std::hash::Hash + Sync + Send> WG<T>;\n      relation g(T);\n   }\n' % m,
+            'generic parameters of struct')
     for cname, (bad, good) in (('strat_cycle2', CYC2), ('strat_cycle2agg', CYC2AGG), ('strat_cycle3', CYC3), ('strat_cycle3b', CYC3B)):
         perms = list(itertools.permutations(range(len(bad))))
         if tier != 'thorough' and len(perms) > 3:
